@@ -818,6 +818,7 @@ package xmpp
 // entry for the id is in the table, with the stanza name and the caller's
 // context, before the stanza is sent, and it is gone on every exit.
 //@ func (*Session).sendResp
+//@   noswallow[C06]
 //@   callsite (*Session).SendElement#1
 //@     assert[C06] has(s.sentStanzas, id) && s.sentStanzas[id].stanzaName == start.Name && s.sentStanzas[id].ctx == ctx
 //@   ensures[C06] !has(s.sentStanzas, id)
